@@ -71,6 +71,7 @@ def conclude(pid, tier, level, tally, coverage, assumptions, t0,
             print(h)
         coverage = dict(coverage)
         coverage["harness_errors"] = len(tally.harness_errors)
+        coverage["harness_error_messages"] = [h[:1500] for h in tally.harness_errors[:3]]
         write_evidence(pid, tier, level, coverage, assumptions,
                        time.time() - t0, -1)
         return 2
